@@ -664,6 +664,11 @@ W=FunctionSpace(m,basix.ufl.mixed_element([P2,P1])); (u,p)=TrialFunctions(W); (v
 V=space(m,"DP",1); a,b=TrialFunction(V),TestFunction(V)
 objs=[inner(sym(grad(u)),sym(grad(v)))*dx - p*div(v)*dx + p*q*dx, jump(a)*jump(b)*dS + a*b*dx]
 options={"part": "diagonal"}'''),
+    _c("opt_diagonal_saddle_point_empty_diagonal_block", '''
+m=mesh("triangle"); P2=el("P","triangle",2,shape=(2,)); P1=el("P","triangle",1)
+W=FunctionSpace(m,basix.ufl.mixed_element([P2,P1])); (u,p)=TrialFunctions(W); (v,q)=TestFunctions(W); f=Coefficient(W)
+objs=[inner(grad(u),grad(v))*dx - p*div(v)*dx - q*div(u)*dx, p*div(v)*dx + split(f)[1]*q*div(u)*ds]
+options={"part": "diagonal"}'''),
     _c("opt_coarse_table_tolerances", '''
 m=mesh("triangle"); V=space(m,"P",2); u,v=TrialFunction(V),TestFunction(V); f=Coefficient(V)
 objs=[f*inner(grad(u),grad(v))*dx + u*v*ds]
